@@ -55,30 +55,10 @@ def hasDup : List VarId → Bool
 /-- F-C01-2: one variable feeds two selected expressions (they are evaluated independently) -/
 def trigMultiSel (q : SQuery) : Bool := hasDup (q.sel.flatMap Term.vars)
 
-def isFalsyVal (v : Val) : Bool := !truthy v
-
-def Term.lits : Term → List Val
-  | .var _ => []
-  | .lit _ x => [x]
-  | .attr t _ | .index t _ | .flatten t => t.lits
-
-def Expr.lits : Expr → List Val
-  | .cmp _ l r => l.lits ++ r.lits
-  | .contains c i => c.lits ++ i.lits
-  | .truth t | .hasType t _ => t.lits
-  | .and l r | .elseIf l r | .union l r => l.lits ++ r.lits
-  | .not e | .exists_ _ e | .forAll _ e => e.lits
-
-def Expr.hasForAll : Expr → Bool
-  | .forAll _ _ => true
-  | .exists_ _ e | .not e => e.hasForAll
-  | .and l r | .elseIf l r | .union l r => l.hasForAll || r.hasForAll
-  | _ => false
-
-/-- F-C01-3 / F-C02-1: a domain contains a falsy value (a bound variable with a falsy value reads as false);
-under `for_all` the same happens to a falsy *literal* (`0`, `[]`), which is re-read as a bound variable -/
-def trigFalsy (w : World) (e : Expr) : Bool :=
-  (w.doms.any fun d => d.2.any isFalsyVal) || (e.hasForAll && e.lits.any isFalsyVal)
+/-! F-C01-3 / F-C02-1 (a bound variable or literal node with a falsy value read as false, so the comparison using it as
+an operand dropped the row) is REPAIRED by fix commit `78cb732`: the model follows the repaired code (`Eql.boundFlag`)
+and its former trigger `trigFalsy` ("a domain contains a falsy value, or a falsy literal below `for_all`") is no longer
+emitted — such inputs must meet the specification like any other. -/
 
 /-- F-C01-9: some variable of the query has an empty domain (no assignment exists, yet a branch that never
 enumerates that variable — `or_` over different variable sets, a short-circuited `and_` under `not_` — answers) -/
@@ -127,7 +107,6 @@ def triggers (w : World) (q : SQuery) : List String :=
   | some e =>
     (if e.unionUnderNot then ["F-C01-1"] else []) ++
     (if trigMultiSel q then ["F-C01-2"] else []) ++
-    (if trigFalsy w e then ["F-C01-3"] else []) ++
     (if e.hasExists then ["F-C01-5", "F-C01-7"] else []) ++
     (if e.forAllEmpty w then ["F-C01-6"] else []) ++
     (if e.quantUnderNotOrOr then ["F-C01-8"] else []) ++
